@@ -47,6 +47,11 @@ Section C17.
     AInv t' /\ TableProto.CInv V hash pin t' /\ (forall j, val t' j = val t j) /\
     (forall j, occupied t' j <-> occupied t j /\ (chained V pin t j -> alive j = true)) /\ nb t' = nb t /\ cap t' = cap t.
   Proof. exact (sweep_ok V hash pin fuel t alive t'). Qed.
+  (* ... and a collection always completes once fuel >= capacity: it never reports Full and never runs out of fuel,
+     whatever the survivor predicate *)
+  Theorem C17_collect_never_stuck fuel t alive : AInv t -> TableProto.CInv V hash pin t -> (N.to_nat (cap t) <= fuel)%nat ->
+    exists t', sweep_all V alive fuel t (bucket_range V t) = Ok t'.
+  Proof. exact (sweep_total V hash pin fuel t alive). Qed.
 End C17.
 
 (* non-vacuity: the table created by Table::new / with_buckets (any size) satisfies both invariants, for any hash *)
@@ -59,4 +64,5 @@ Print Assumptions C17_put.
 Print Assumptions C17_distinct_values_distinct_cells.
 Print Assumptions C17_put_never_stuck.
 Print Assumptions C17_collect.
+Print Assumptions C17_collect_never_stuck.
 Print Assumptions C17_new_table_ok.
